@@ -1035,7 +1035,8 @@ class ZipfCheck(Check):
             if fn.endswith('.json'):
                 cases.append(json.load(open(os.path.join(d, fn))))
         cases += g.grid_cases(f'z{self.seed}-')
-        cases += g.big_cases(f'z{self.seed}-', full=(self.tier == 'thorough'))
+        if self.pid != 'C19':   # the purity runs are switched off for them anyway
+            cases += g.big_cases(f'z{self.seed}-', full=(self.tier == 'thorough'))
         cases += [g.pick_case(f'z{self.seed}-{i}') for i in range(self.counts[self.tier])]
         throws = g.throw_grid(f'z{self.seed}-') + [g.throw_case(f'zt{self.seed}-{i}') for i in range(24)]
         results, stats, texts = self.run_cases(exe, g, cases, throws)
